@@ -93,6 +93,8 @@ func main() {
 	keep := flag.String("out", "", "directory for .smt2 files")
 	jsonOut := flag.String("json", "", "result file")
 	havoc := flag.String("havoc", "", "comma separated callees to havoc")
+	observer := flag.String("observer", "", "comma separated callees kept abstract as pure functions of their arguments")
+	ifacetag := flag.String("ifacetag", "", "Interface=Concrete[,..]: values of the interface type are assumed to have the concrete dynamic type (names as pkg.Type)")
 	opq := flag.String("opaque", "", "comma separated spec functions kept abstract")
 	assume := flag.String("assume", "", "extra raw SMT assumption over parameter names, e.g. (= typ #x03)")
 	setv := flag.String("set", "", "bind scalar parameters to constants: name=val,name=val")
@@ -161,6 +163,42 @@ func main() {
 		if strings.HasPrefix(p.Pkg.Path(), modPath) {
 			e.pkgs[p.Pkg.Path()] = p
 		}
+	}
+	e.observer = map[string]bool{}
+	for _, o := range strings.Split(*observer, ",") {
+		if o != "" {
+			e.observer[o] = true
+			res.Havocked = append(res.Havocked, "observer:"+o)
+		}
+	}
+	for _, kv := range strings.Split(*ifacetag, ",") {
+		if kv == "" {
+			continue
+		}
+		i := strings.Index(kv, "=")
+		if i < 0 {
+			res.ToolError = "bad -ifacetag " + kv
+			finish(2)
+		}
+		find := func(q string) types.Type {
+			j := strings.LastIndex(q, ".")
+			for _, p := range prog.AllPackages() {
+				if p.Pkg.Name() == q[:j] && strings.HasPrefix(p.Pkg.Path(), modPath) {
+					if t := p.Type(q[j+1:]); t != nil {
+						return t.Type()
+					}
+				}
+			}
+			return nil
+		}
+		it, ct := find(kv[:i]), find(kv[i+1:])
+		if it == nil || ct == nil {
+			res.ToolError = "unknown type in -ifacetag " + kv
+			fmt.Println("TOOL ERROR:", res.ToolError)
+			finish(2)
+		}
+		ifaceTags[typeName(it)] = ct
+		res.Havocked = append(res.Havocked, "assumed dynamic type: "+kv)
 	}
 	fn := findFunc(spkgs[0], *fname)
 	if fn == nil {
@@ -298,6 +336,14 @@ func main() {
 		}
 	}
 	res.DischargeS = time.Since(t1).Seconds()
+	solverErrors.Range(func(k, v interface{}) bool {
+		res.ToolError = fmt.Sprintf("solver %v rejected a generated query: %v", v, k)
+		return false
+	})
+	if res.ToolError != "" {
+		fmt.Println("TOOL ERROR:", res.ToolError)
+		finish(2)
+	}
 	ok, bad := 0, 0
 	byName := map[string][2]int{}
 	for _, o := range e.obls {
@@ -513,8 +559,17 @@ func (e *Engine) verifyUnit(fn *ssa.Function, extra string, setv string) {
 		fail("no feasible return path and no obligation in %s (vacuous)", fn.Name())
 	}
 	for _, o := range outs {
-		cargs := append(append([]Val{}, args...), o.ret...)
+		cargs0 := append(append([]Val{}, args...), o.ret...)
 		for _, c := range ens {
+			cargs := cargs0
+			// parameters beyond (parameters, results) are bound by name in the returning frame
+			for _, p := range c.Params[min(len(cargs0), len(c.Params)):] {
+				v, ok := e.lookupName(o.st, o.fr, p.Name())
+				if !ok {
+					fail("%s: no variable named %s at a return of %s", c.Name(), p.Name(), fn.Name())
+				}
+				cargs = append(append([]Val{}, cargs...), v)
+			}
 			g := e.evalContract(o.st, c, cargs, false)
 			e.oblige(o.st, "ensures:"+e.clauseName(fn, c), g, c.Name())
 		}
